@@ -85,6 +85,11 @@ def run(ctx):
             # the slot type the library's enumeration defines as Undefined (0xFFFF) around a data burst
             pdu, dt, _ = make_pdu(rng, rng.choice(list(kinds)))
             burst = gen.assemble_data_burst(pdu, dt, cc, rng.choice(gen.DATA_SYNCS))
+            if k % 46 == 7:
+                # ... or around a data burst of a data type the library has no PDU class for (idle, MBC, unified single block)
+                from okdmr.dmrlib.etsi.layer2.elements.data_types import DataTypes
+                burst = gen.raw_data_burst(gen.rbits(rng, 96), rng.choice([DataTypes.Idle, DataTypes.MBCHeader, DataTypes.MBCContinuation,
+                                                                             DataTypes.UnifiedSingleBlockData]), cc, rng.choice(gen.DATA_SYNCS))
             slot = 0xFFFF
         if k % 3 == 2:
             frame_type = rng.choice([0x0000, 0x1111, 0x3333, 0x6666, 0xBBBB, 0xEEEE])      # the types cross: any frame type with any slot type
